@@ -939,3 +939,154 @@ func H_C01_arrayOfMaps() {
 	verifAssert(verifBytesEq(vrEncode(args), wantArgs), "C01: the outputs of a map call nested in an array-mapped pipeline merge into an array of maps")
 	verifCover("array of maps merged")
 }
+
+// ---- statically known nested map calls with non-uniform inner collections ----
+
+var vrStaticOuter = []string{
+	"[\n            [],\n            [7],\n            [1, 2, 3],\n        ]",
+	"[\n            [7],\n            [],\n            [1, 2, 3],\n        ]",
+	"[\n            [7],\n            [1, 2, 3],\n            [],\n        ]",
+	"[\n            [],\n            [],\n            [5, 6],\n        ]",
+}
+var vrStaticWant = [][][]byte{
+	{{}, {'7'}, {'1', '2', '3'}},
+	{{'7'}, {}, {'1', '2', '3'}},
+	{{'7'}, {'1', '2', '3'}, {}},
+	{{}, {}, {'5', '6'}},
+}
+
+func vrStaticSrc(variant int) string {
+	return `
+stage WORK(
+    in  int  what,
+    out int  result,
+    src comp "bin",
+)
+
+pipeline INNER(
+    in  int[] vals,
+    out int[] ws,
+)
+{
+    map call WORK(
+        what = split self.vals,
+    )
+
+    return (
+        ws = WORK.result,
+    )
+}
+
+pipeline OUTER(
+    out int[][] r,
+)
+{
+    map call INNER(
+        vals = split ` + vrStaticOuter[variant] + `,
+    )
+
+    return (
+        r = INNER.ws,
+    )
+}
+
+call OUTER()
+`
+}
+
+type vrStatic struct {
+	ps   *Pipestance
+	work *Node
+}
+
+func vrStaticGraph(variant int) *vrStatic {
+	disableUniquification = false
+	return verifCached("vrStaticGraph"+string(rune('0'+variant)), func() any {
+		rt := &Runtime{Config: &RuntimeOptions{JobMode: "local", VdrMode: VdrDisable}, mrjob: "/m/mrjob", adaptersPath: "/m/adapters"}
+		_, _, ps, err := rt.instantiatePipeline([]byte(vrStaticSrc(variant)), "/m/p.mro", "ps", "/ps", nil, "none", nil, false, true, context.Background())
+		if err != nil {
+			panic("fixture does not instantiate: " + err.Error())
+		}
+		return &vrStatic{ps, ps.node.top.allNodes["ID.ps.OUTER.INNER.WORK"]}
+	}).(*vrStatic)
+}
+
+// H_C01_staticNested(variant): INNER is mapped over a literal array of arrays
+// of different lengths, one or two of them empty, in every position.
+//
+//	C01/C03: WORK runs exactly once for every element of every inner array and
+//	receives it; an empty inner array contributes no job and does not affect
+//	its siblings; the pipeline output is the array of arrays of WORK results.
+func H_C01_staticNested(variant int) {
+	w := vrStaticGraph(variant)
+	vrOuts = map[*Metadata]LazyArgumentMap{}
+	want := vrStaticWant[variant]
+	w.work.expandForks(true)
+	verifCover("static nested forks")
+	vrUniqueForks(w.work)
+	seen := make([][]bool, len(want))
+	results := make([][]json.RawMessage, len(want))
+	for i := range want {
+		seen[i] = make([]bool, len(want[i]))
+		results[i] = make([]json.RawMessage, len(want[i]))
+	}
+	enabled := 0
+	for _, f := range w.work.forks {
+		if dis, err := f.disabled(); err == nil && dis {
+			// the placeholder fork of an empty inner array
+			continue
+		}
+		enabled++
+		if len(f.forkId) != 2 {
+			verifAssert(false, "C01/C03: an inner fork has an outer and an inner index")
+			return
+		}
+		oi, ok1 := f.forkId[0].Id.(arrayIndexFork)
+		ii, ok2 := f.forkId[1].Id.(arrayIndexFork)
+		if !ok1 || !ok2 || int(oi) < 0 || int(oi) >= len(want) || int(ii) < 0 || int(ii) >= len(want[oi]) {
+			verifAssert(false, "C01/C03: every enabled fork stands for an element of one of the inner arrays")
+			return
+		}
+		verifAssert(!seen[oi][ii], "C01/C03: no element is processed twice")
+		seen[oi][ii] = true
+		_, args, err := w.work.resolveInputs(f.forkId, false)
+		verifAssert(err == nil, "C01: the inputs of every fork resolve")
+		if err != nil {
+			return
+		}
+		verifAssert(verifBytesEq(vrEncode(args), []byte{'{', '"', 'w', 'h', 'a', 't', '"', ':', want[oi][ii], '}'}), "C01: the fork for element j of inner array i receives exactly that element")
+		results[oi][ii] = vrDigit("WORK result")
+		vrOuts[f.metadata] = LazyArgumentMap{"result": results[oi][ii]}
+	}
+	total := 0
+	for i := range want {
+		total += len(want[i])
+		for j := range seen[i] {
+			verifAssert(seen[i][j], "C01/C03: every element of every inner array is processed, also after an empty sibling")
+		}
+	}
+	verifAssert(enabled == total, "C01/C03: exactly one enabled fork per element")
+	outs, _, err := w.ps.node.resolvePipelineOutputs(nil)
+	verifAssert(err == nil, "C01: the pipeline outputs resolve")
+	if err == nil {
+		// (an empty inner array is a disabled call: its merged output is null;
+		// an empty array would denote the same thing, both are accepted)
+		build := func(empty string) []byte {
+			out := []byte(`{"r":[`)
+			for i := range results {
+				if i > 0 {
+					out = append(out, ',')
+				}
+				if len(results[i]) == 0 {
+					out = append(out, empty...)
+				} else {
+					out = append(out, vrArray(results[i])...)
+				}
+			}
+			return append(out, []byte(`]}`)...)
+		}
+		got := vrEncode(outs)
+		verifAssert(verifAny(verifBytesEq(got, build("null")), verifBytesEq(got, build("[]"))), "C01: the outputs merge into an array of arrays, null / empty where the inner array was empty")
+		verifCover("static nested outputs")
+	}
+}
